@@ -319,8 +319,13 @@ Remove(S, K0, notify, why) ==
             ELSE <<>>
       T1 == [t \in DOMAIN S.tasks |->
                IF t \in K
-               THEN [S.tasks[t] EXCEPT !.st = "gone", !.why = IF t \in K0 THEN why ELSE "dropped",
-                                       !.ls = IF t \in K0 /\ why = "evicted" THEN @ ELSE <<>>]
+               \* (what an evicted task was waiting for stays, for EvictionSound; everything else a task
+               \* that is gone carried is let go of, so that long histories keep small states)
+               THEN IF t \in K0 /\ why = "evicted"
+                    THEN [S.tasks[t] EXCEPT !.st = "gone", !.why = why]
+                    ELSE [S.tasks[t] EXCEPT !.st = "gone", !.why = IF t \in K0 THEN why ELSE "dropped",
+                                            !.ls = <<>>, !.code = <<>>, !.pc = 1, !.flat = NoFlat,
+                                            !.streams = NoStreams]
                ELSE S.tasks[t]]
       C1 == [c \in DOMAIN S.cmds |->
                IF S.cmds[c].host \in K THEN [S.cmds[c] EXCEPT !.alive = FALSE, !.out = {}] ELSE S.cmds[c]]
@@ -1001,6 +1006,32 @@ Take(c) ==
   /\ UNCHANGED <<tasks, ready, run, joinreg, rq, sq>>
 
 IsDone(c) == cmds[c].out = {} /\ LiveIn(St, c) = {}
+
+\* Garbage (validators of long histories only): records of work that is over and that nothing in the
+\* state -- nor the shell, nor `pinned` -- can refer to any more.  A task that is gone is kept while a live
+\* task holds a join handle for it, while a request it owned can still be acted on (its stale waker walks up
+\* the chain of hosts, which are kept as well), a request while its task lives or the shell holds it.
+RECURSIVE CloseHosts(_, _)
+CloseHosts(S, X) ==
+  LET Y == X \cup ({S.cmds[S.tasks[t].cmd].host : t \in X} \cap DOMAIN S.tasks) IN
+  IF Y = X THEN X ELSE CloseHosts(S, Y)
+Compact(S, pinned) ==
+  LET live == Live(S)
+      KR == {r \in DOMAIN S.reqs :
+               \/ S.reqs[r].held \/ r \in pinned \/ S.reqs[r].owner \in live
+               \/ (IsChan(S.reqs[r]) /\ \E t \in live : \E i \in 1..NCH : S.tasks[t].chans[i] = r)}
+      KT == CloseHosts(S, live
+                          \cup ({S.tasks[t].handles[i] : t \in live, i \in 1..NHND} \cap DOMAIN S.tasks)
+                          \cup ({S.reqs[r].owner : r \in KR} \cap DOMAIN S.tasks))
+      KC == {c \in DOMAIN S.cmds :
+               \/ S.cmds[c].alive \/ S.cmds[c].host = NONE
+               \/ \E t \in KT : S.tasks[t].cmd = c
+               \/ \E t \in live : S.tasks[t].hosting = c}
+  IN [S EXCEPT !.tasks = [t \in KT |-> S.tasks[t]],
+               !.reqs = [r \in KR |-> S.reqs[r]],
+               !.cmds = [c \in KC |-> S.cmds[c]],
+               !.rq = [c \in KC \cap DOMAIN S.rq |-> S.rq[c]],
+               !.sq = [c \in KC \cap DOMAIN S.sq |-> S.sq[c]]]
 
 \* C13: the script futures that may still exist (everything else must have been dropped): the
 \* live script tasks, and the scripts of commands a combinator already holds but has not started
